@@ -841,6 +841,377 @@ FLOORS = {
                      'lpos:mode:build:first': 3400, 'lpos:mode:build:last': 3400, 'lpos:mode:build:middle': 2700,
                      'lpos:mode:text:first': 3400, 'lpos:mode:text:last': 3400, 'lpos:mode:text:middle': 2700}},
 }
+# ROUTE-FLOORS (build routes): generated like the literal above (50 % of the minimum over VERIF_SEED 0..3 quick / of seed 0
+# thorough, 2 digits kept, measured keys only where the minimum is >= 40 / 60).  No floor on counters whose value
+# is the LIBRARY'S choice or answer (route:callerlist:*, route:ctor-*-in-mapping:*); the enumerated routes are floored
+# programmatically in _enum_floors().  A run that never drives the build routes is INCONCLUSIVE, not held.
+_ROUTE_FLOORS = {'quick': {'counters': {'route-par:case': 1300,
+                        'route:case': 2100,
+                        'route:config:BuildInfo': 310,
+                        'route:config:Changes': 310,
+                        'route:config:Dsc': 310,
+                        'route:config:PdiffIndex': 550,
+                        'route:config:Release-apt-ftparchive': 310,
+                        'route:config:Release-dak': 310,
+                        'route:dump:final': 2100,
+                        'route:dump:intermediate': 1300,
+                        'route:grow-after:dump': 1900,
+                        'route:grow-after:read:bool': 350,
+                        'route:grow-after:read:contains': 500,
+                        'route:grow-after:read:dict': 570,
+                        'route:grow-after:read:eq': 610,
+                        'route:grow-after:read:get': 510,
+                        'route:grow-after:read:get-default': 490,
+                        'route:grow-after:read:get_as_string': 45,
+                        'route:grow-after:read:getitem': 370,
+                        'route:grow-after:read:getitem-absent': 120,
+                        'route:grow-after:read:items': 580,
+                        'route:grow-after:read:iter': 360,
+                        'route:grow-after:read:keys': 580,
+                        'route:grow-after:read:len': 370,
+                        'route:grow-after:read:len-obj': 580,
+                        'route:grow-after:read:list-copy': 350,
+                        'route:grow-after:read:rec-read': 450,
+                        'route:grow-after:read:repr': 620,
+                        'route:grow-after:read:str': 270,
+                        'route:grow-after:read:values': 620,
+                        'route:intermediate-dumps:0': 1100,
+                        'route:intermediate-dumps:1': 600,
+                        'route:intermediate-dumps:2': 200,
+                        'route:list-object-of-another-paragraph-handed-over': 200,
+                        'route:new:deb822dict': 380,
+                        'route:new:empty': 920,
+                        'route:new:kw': 360,
+                        'route:new:mapping': 360,
+                        'route:other-structured-fields:all-present': 430,
+                        'route:other-structured-fields:none': 770,
+                        'route:other-structured-fields:some': 870,
+                        'route:paragraph-with-2+-different-routes': 1300,
+                        'route:records:n1': 920,
+                        'route:records:n2': 1900,
+                        'route:records:n3': 1800,
+                        'route:records:n4': 1100,
+                        'route:records:n5': 310,
+                        'route:records:n6': 200,
+                        'route:records:n7+': 370,
+                        'route:rectype:deb822dict': 3600,
+                        'route:rectype:deb822dict-pairs': 1500,
+                        'route:rectype:deb822dict-rev': 1500,
+                        'route:rectype:dict': 5300,
+                        'route:rectype:dict-rev': 1500,
+                        'route:rectype:int-size': 3500,
+                        'route:rectype:ordereddict': 1500,
+                        'route:setdefault:default-on-present-field-must-be-ignored': 120,
+                        'route:setdefault:default-with-records-into-absent-field': 400,
+                        'route:setdefault:empty-default-into-absent-field': 1100,
+                        'route:setdefault:first-record-through-the-returned-list': 1100,
+                        'route:src:case': 1400,
+                        'route:src:dumped-before-its-records-were-taken': 1000,
+                        'route:src:form:mixed': 730,
+                        'route:src:form:multi': 2400,
+                        'route:src:form:single': 230,
+                        'route:src:how:copy': 520,
+                        'route:src:how:deb822dict': 530,
+                        'route:src:how:dict': 510,
+                        'route:src:how:items': 520,
+                        'route:src:how:same': 1300,
+                        'route:src:input:bfile': 270,
+                        'route:src:input:bytes': 260,
+                        'route:src:input:file': 270,
+                        'route:src:input:lines': 270,
+                        'route:src:input:lines_nonl': 270,
+                        'route:src:input:signed': 100,
+                        'route:src:input:str': 550,
+                        'route:src:other-class': 250,
+                        'route:src:same-class': 1800,
+                        'route:src:selection:filter-len': 180,
+                        'route:src:selection:idx': 2100,
+                        'route:src:selection:reversed': 270,
+                        'route:src:selection:slice': 260,
+                        'route:src:selection:sorted': 210,
+                        'route:src:selection:whole': 370,
+                        'route:step:behavior': 460,
+                        'route:step:callerlist': 290,
+                        'route:step:delete:del': 150,
+                        'route:step:delete:pop': 73,
+                        'route:step:dump': 1300,
+                        'route:step:grow:get.append': 690,
+                        'route:step:grow:get.concat': 200,
+                        'route:step:grow:get.extend': 270,
+                        'route:step:grow:get.extend-gen': 33,
+                        'route:step:grow:get.iadd': 68,
+                        'route:step:grow:get.insert0': 30,
+                        'route:step:grow:get.slice': 27,
+                        'route:step:grow:getitem.append': 2700,
+                        'route:step:grow:getitem.concat': 170,
+                        'route:step:grow:getitem.extend': 340,
+                        'route:step:grow:getitem.extend-gen': 150,
+                        'route:step:grow:getitem.iadd': 500,
+                        'route:step:grow:getitem.insert0': 680,
+                        'route:step:grow:getitem.slice': 150,
+                        'route:step:grow:held.append': 1100,
+                        'route:step:grow:held.extend': 270,
+                        'route:step:grow:held.extend-gen': 51,
+                        'route:step:grow:held.iadd': 420,
+                        'route:step:grow:held.insert0': 170,
+                        'route:step:grow:held.slice': 49,
+                        'route:step:grow:setdefault.append': 2200,
+                        'route:step:grow:setdefault.extend': 120,
+                        'route:step:grow:setdefault.extend-gen': 57,
+                        'route:step:grow:setdefault.iadd': 62,
+                        'route:step:grow:setdefault.insert0': 59,
+                        'route:step:grow:setdefault.slice': 59,
+                        'route:step:hold:get': 120,
+                        'route:step:hold:getitem': 270,
+                        'route:step:hold:setdefault': 410,
+                        'route:step:plain:setdefault': 670,
+                        'route:step:plain:setitem': 1300,
+                        'route:step:plain:update': 670,
+                        'route:step:put:setdefault': 460,
+                        'route:step:put:setdefault:empty-list': 240,
+                        'route:step:put:setitem': 950,
+                        'route:step:put:setitem:empty-list': 1100,
+                        'route:step:put:update-kw': 400,
+                        'route:step:put:update-kw:empty-list': 310,
+                        'route:step:put:update-mapping': 400,
+                        'route:step:put:update-mapping:empty-list': 300,
+                        'route:step:put:update-pairs': 350,
+                        'route:step:put:update-pairs:empty-list': 240,
+                        'route:step:read:bool': 680,
+                        'route:step:read:contains': 1200,
+                        'route:step:read:dict': 260,
+                        'route:step:read:eq': 260,
+                        'route:step:read:get': 1200,
+                        'route:step:read:get-default': 1200,
+                        'route:step:read:get_as_string': 150,
+                        'route:step:read:getitem': 720,
+                        'route:step:read:getitem-absent': 480,
+                        'route:step:read:items': 250,
+                        'route:step:read:iter': 720,
+                        'route:step:read:keys': 250,
+                        'route:step:read:len': 690,
+                        'route:step:read:len-obj': 260,
+                        'route:step:read:list-copy': 710,
+                        'route:step:read:rec-read': 1100,
+                        'route:step:read:repr': 250,
+                        'route:step:read:str': 160,
+                        'route:step:read:values': 270,
+                        'route:step:update-from': 210,
+                        'route:template:concat': 210,
+                        'route:template:ctor-records': 240,
+                        'route:template:ctor-text': 220,
+                        'route:template:empty+append': 440,
+                        'route:template:empty+extend': 230,
+                        'route:template:empty+get.append': 210,
+                        'route:template:empty+held': 400,
+                        'route:template:empty+iadd': 220,
+                        'route:template:empty+insert0': 220,
+                        'route:template:first+grow': 420,
+                        'route:template:foreign-list': 230,
+                        'route:template:from-paragraph': 220,
+                        'route:template:rebuilt-after-delete': 220,
+                        'route:template:reset-to-empty+append': 230,
+                        'route:template:setdefault-held': 410,
+                        'route:template:setdefault-put': 210,
+                        'route:template:setdefault-rec0': 410,
+                        'route:template:setdefault.append': 420,
+                        'route:template:setdefault.extend': 230,
+                        'route:template:setitem': 220,
+                        'route:template:update-empty+append': 220,
+                        'route:template:update-kw': 220,
+                        'route:template:update-mapping': 210,
+                        'route:template:update-pairs': 220},
+           'monitors': {'M.route': 2100,
+                        'M.route.mid': 1300,
+                        'M.route.others': 4200,
+                        'M.route.setdefault': 810,
+                        'M.route.src': 1200,
+                        'M.route.src-unchanged': 1800}},
+ 'thorough': {'counters': {'route-par:case': 70000,
+                           'route:case': 110000,
+                           'route:config:BuildInfo': 16000,
+                           'route:config:Changes': 16000,
+                           'route:config:Dsc': 16000,
+                           'route:config:PdiffIndex': 28000,
+                           'route:config:Release-apt-ftparchive': 16000,
+                           'route:config:Release-dak': 16000,
+                           'route:dump:final': 110000,
+                           'route:dump:intermediate': 83000,
+                           'route:grow-after:dump': 130000,
+                           'route:grow-after:read:bool': 23000,
+                           'route:grow-after:read:contains': 33000,
+                           'route:grow-after:read:dict': 46000,
+                           'route:grow-after:read:eq': 46000,
+                           'route:grow-after:read:get': 33000,
+                           'route:grow-after:read:get-default': 33000,
+                           'route:grow-after:read:get_as_string': 2700,
+                           'route:grow-after:read:getitem': 23000,
+                           'route:grow-after:read:getitem-absent': 10000,
+                           'route:grow-after:read:items': 46000,
+                           'route:grow-after:read:iter': 23000,
+                           'route:grow-after:read:keys': 47000,
+                           'route:grow-after:read:len': 23000,
+                           'route:grow-after:read:len-obj': 47000,
+                           'route:grow-after:read:list-copy': 23000,
+                           'route:grow-after:read:rec-read': 29000,
+                           'route:grow-after:read:repr': 46000,
+                           'route:grow-after:read:str': 21000,
+                           'route:grow-after:read:values': 46000,
+                           'route:intermediate-dumps:0': 58000,
+                           'route:intermediate-dumps:1': 32000,
+                           'route:intermediate-dumps:2': 12000,
+                           'route:list-object-of-another-paragraph-handed-over': 12000,
+                           'route:new:deb822dict': 20000,
+                           'route:new:empty': 47000,
+                           'route:new:kw': 21000,
+                           'route:new:mapping': 21000,
+                           'route:other-structured-fields:all-present': 33000,
+                           'route:other-structured-fields:none': 30000,
+                           'route:other-structured-fields:some': 46000,
+                           'route:paragraph-with-2+-different-routes': 79000,
+                           'route:records:n1': 60000,
+                           'route:records:n2': 110000,
+                           'route:records:n3': 110000,
+                           'route:records:n4': 72000,
+                           'route:records:n5': 20000,
+                           'route:records:n6': 13000,
+                           'route:records:n7+': 24000,
+                           'route:rectype:deb822dict': 230000,
+                           'route:rectype:deb822dict-pairs': 100000,
+                           'route:rectype:deb822dict-rev': 100000,
+                           'route:rectype:dict': 340000,
+                           'route:rectype:dict-rev': 100000,
+                           'route:rectype:int-size': 220000,
+                           'route:rectype:ordereddict': 100000,
+                           'route:setdefault:default-on-present-field-must-be-ignored': 8800,
+                           'route:setdefault:default-with-records-into-absent-field': 26000,
+                           'route:setdefault:empty-default-into-absent-field': 75000,
+                           'route:setdefault:first-record-through-the-returned-list': 74000,
+                           'route:src:case': 81000,
+                           'route:src:dumped-before-its-records-were-taken': 59000,
+                           'route:src:form:mixed': 46000,
+                           'route:src:form:multi': 150000,
+                           'route:src:form:single': 16000,
+                           'route:src:how:copy': 33000,
+                           'route:src:how:deb822dict': 34000,
+                           'route:src:how:dict': 34000,
+                           'route:src:how:items': 34000,
+                           'route:src:how:same': 82000,
+                           'route:src:input:bfile': 16000,
+                           'route:src:input:bytes': 16000,
+                           'route:src:input:file': 16000,
+                           'route:src:input:lines': 15000,
+                           'route:src:input:lines_nonl': 16000,
+                           'route:src:input:signed': 6400,
+                           'route:src:input:str': 32000,
+                           'route:src:other-class': 14000,
+                           'route:src:same-class': 100000,
+                           'route:src:selection:filter-len': 12000,
+                           'route:src:selection:idx': 130000,
+                           'route:src:selection:reversed': 17000,
+                           'route:src:selection:slice': 17000,
+                           'route:src:selection:sorted': 13000,
+                           'route:src:selection:whole': 23000,
+                           'route:step:behavior': 24000,
+                           'route:step:callerlist': 16000,
+                           'route:step:delete:del': 9800,
+                           'route:step:delete:pop': 4900,
+                           'route:step:dump': 83000,
+                           'route:step:grow:get.append': 45000,
+                           'route:step:grow:get.concat': 13000,
+                           'route:step:grow:get.extend': 18000,
+                           'route:step:grow:get.extend-gen': 2000,
+                           'route:step:grow:get.iadd': 4700,
+                           'route:step:grow:get.insert0': 2000,
+                           'route:step:grow:get.slice': 2100,
+                           'route:step:grow:getitem.append': 170000,
+                           'route:step:grow:getitem.concat': 13000,
+                           'route:step:grow:getitem.extend': 21000,
+                           'route:step:grow:getitem.extend-gen': 10000,
+                           'route:step:grow:getitem.iadd': 33000,
+                           'route:step:grow:getitem.insert0': 45000,
+                           'route:step:grow:getitem.slice': 10000,
+                           'route:step:grow:held.append': 73000,
+                           'route:step:grow:held.extend': 19000,
+                           'route:step:grow:held.extend-gen': 3500,
+                           'route:step:grow:held.iadd': 30000,
+                           'route:step:grow:held.insert0': 11000,
+                           'route:step:grow:held.slice': 3500,
+                           'route:step:grow:setdefault.append': 140000,
+                           'route:step:grow:setdefault.extend': 8000,
+                           'route:step:grow:setdefault.extend-gen': 3900,
+                           'route:step:grow:setdefault.iadd': 3800,
+                           'route:step:grow:setdefault.insert0': 3800,
+                           'route:step:grow:setdefault.slice': 3900,
+                           'route:step:hold:get': 9300,
+                           'route:step:hold:getitem': 18000,
+                           'route:step:hold:setdefault': 27000,
+                           'route:step:plain:setdefault': 36000,
+                           'route:step:plain:setitem': 72000,
+                           'route:step:plain:update': 36000,
+                           'route:step:put:setdefault': 30000,
+                           'route:step:put:setdefault:empty-list': 16000,
+                           'route:step:put:setitem': 61000,
+                           'route:step:put:setitem:empty-list': 75000,
+                           'route:step:put:update-kw': 26000,
+                           'route:step:put:update-kw:empty-list': 19000,
+                           'route:step:put:update-mapping': 26000,
+                           'route:step:put:update-mapping:empty-list': 19000,
+                           'route:step:put:update-pairs': 23000,
+                           'route:step:put:update-pairs:empty-list': 16000,
+                           'route:step:read:bool': 45000,
+                           'route:step:read:contains': 74000,
+                           'route:step:read:dict': 16000,
+                           'route:step:read:eq': 16000,
+                           'route:step:read:get': 73000,
+                           'route:step:read:get-default': 74000,
+                           'route:step:read:get_as_string': 9900,
+                           'route:step:read:getitem': 45000,
+                           'route:step:read:getitem-absent': 28000,
+                           'route:step:read:items': 16000,
+                           'route:step:read:iter': 45000,
+                           'route:step:read:keys': 17000,
+                           'route:step:read:len': 45000,
+                           'route:step:read:len-obj': 17000,
+                           'route:step:read:list-copy': 45000,
+                           'route:step:read:rec-read': 73000,
+                           'route:step:read:repr': 16000,
+                           'route:step:read:str': 9900,
+                           'route:step:read:values': 16000,
+                           'route:step:update-from': 13000,
+                           'route:template:concat': 14000,
+                           'route:template:ctor-records': 14000,
+                           'route:template:ctor-text': 14000,
+                           'route:template:empty+append': 27000,
+                           'route:template:empty+extend': 14000,
+                           'route:template:empty+get.append': 14000,
+                           'route:template:empty+held': 27000,
+                           'route:template:empty+iadd': 14000,
+                           'route:template:empty+insert0': 14000,
+                           'route:template:first+grow': 27000,
+                           'route:template:foreign-list': 14000,
+                           'route:template:from-paragraph': 14000,
+                           'route:template:rebuilt-after-delete': 14000,
+                           'route:template:reset-to-empty+append': 14000,
+                           'route:template:setdefault-held': 27000,
+                           'route:template:setdefault-put': 14000,
+                           'route:template:setdefault-rec0': 27000,
+                           'route:template:setdefault.append': 27000,
+                           'route:template:setdefault.extend': 14000,
+                           'route:template:setitem': 14000,
+                           'route:template:update-empty+append': 14000,
+                           'route:template:update-kw': 14000,
+                           'route:template:update-mapping': 14000,
+                           'route:template:update-pairs': 14000},
+              'monitors': {'M.route': 110000,
+                           'M.route.mid': 83000,
+                           'M.route.others': 220000,
+                           'M.route.setdefault': 48000,
+                           'M.route.src': 71000,
+                           'M.route.src-unchanged': 100000}}}
+for _tier in ('quick', 'thorough'):
+    FLOORS[_tier]['counters'].update(_ROUTE_FLOORS[_tier]['counters'])
+    FLOORS[_tier]['monitors'].update(_ROUTE_FLOORS[_tier]['monitors'])
 # MIXED-FLOORS: the enumerated mixed-layout class is deterministic - every structured field of every configuration
 # is parsed MIXED_REPS x {2, 3, 4 records} times (Release: x 2 behaviours); demand half of that per field, so a
 # run that does not drive the mixed layout for SOME field of SOME class is INCONCLUSIVE, not held.
